@@ -630,6 +630,53 @@ func run(c *harness.Ctx) harness.Result {
 			break
 		}
 	}
+	// one source file recorded under several spellings (./x, x, dir//x, dir/./x) is one file; and
+	// now and then one very deep stack that keeps coming back to its first frames
+	for _, f := range p.Function {
+		if f.Filename != "" && r.Intn(5) == 0 {
+			switch r.Intn(3) {
+			case 0:
+				if !strings.HasPrefix(f.Filename, "/") {
+					f.Filename = "./" + f.Filename
+				}
+			case 1:
+				f.Filename = strings.Replace(f.Filename, "/", "//", 1)
+			default:
+				f.Filename = strings.Replace(f.Filename, "/", "/./", 1)
+			}
+		}
+	}
+	if r.Intn(12) == 0 && len(p.Location) > 0 && len(p.Sample) > 0 && len(p.Function) > 0 {
+		var maxF, maxL uint64
+		for _, x := range p.Function {
+			if x.ID > maxF {
+				maxF = x.ID
+			}
+		}
+		for _, x := range p.Location {
+			if x.ID > maxL {
+				maxL = x.ID
+			}
+		}
+		if maxF < 1<<31 && maxL < 1<<31 {
+			var chain []*profile.Location
+			for i := 0; i < 40; i++ {
+				fn := &profile.Function{ID: maxF + uint64(i) + 1, Name: fmt.Sprintf("deep%02d", i), SystemName: fmt.Sprintf("deep%02d", i), Filename: "deep.go"}
+				l := &profile.Location{ID: maxL + uint64(i) + 1, Address: 0x5550000 + uint64(i)*16, Line: []profile.Line{{Function: fn, Line: int64(i + 1)}}}
+				p.Function, p.Location = append(p.Function, fn), append(p.Location, l)
+				chain = append(chain, l)
+			}
+			// root deep00 ... deep39, then back into deep05 and deep01 (leaf first in the sample)
+			var stack []*profile.Location
+			stack = append(stack, chain[1], chain[5])
+			for i := 39; i >= 0; i-- {
+				stack = append(stack, chain[i])
+			}
+			sm := p.Sample[r.Intn(len(p.Sample))]
+			sm.Location = stack
+			c.Stat("deep_reentrant_stacks", 1)
+		}
+	}
 	res := harness.Result{NonTrivial: len(p.Sample) >= 2, Sig: gen.Shape(p)}
 	var web *drv.Web
 	if c.Index%4 == 0 {
